@@ -132,6 +132,10 @@ ChkTerminal(res, nmsg, got) ==
        V(HReturned, "C02", "success-before-handler-returned")
        \cup V(~HReturned \/ hStatus.code = 0,
               IF hStatus.ctxerr THEN "C04" ELSE "C02", "success-but-handler-failed")
+       \* (single-response kinds: one response *and* a non-OK final status must
+       \* come out as that status -- the cardinality clause's own wording)
+       \cup V(RespStream \/ ~HReturned \/ hStatus.code = 0 \/ hStatus.ctxerr,
+              "C08", "single-response-success-although-final-status-non-ok")
        \cup V(~fault, "C02", "success-despite-fault")
        \cup V(hSendOk \subseteq got, IF cctx # "live" THEN "C04" ELSE "C01", "success-with-missing-messages")
        \cup V(RespStream \/ (NResp = 1 /\ nmsg = 1), "C08", "success-without-exactly-one-response")
@@ -247,7 +251,10 @@ Ev_CSendCall(k) ==
 \* handler's receive operations (in-process only).
 Chk_CSendRet(k, res) ==
   (IF res.k = "nil" \/ cctx # "live" \/ fault \/ closeSend THEN {}
-   ELSE IF res.k = "eof" THEN V(HReturned, "C05", "send-eof-while-handler-running")
+   \* (io.EOF is also what a send gets once the client has been given the call's
+   \* final result -- e.g. the cardinality error of a single-response method whose
+   \* handler is still running -- as on the standard transport)
+   ELSE IF res.k = "eof" THEN V(HReturned \/ cTerm.k # "none", "C05", "send-eof-while-handler-running")
    ELSE {<<"C05", "send-error-on-healthy-call">>})
   \cup (IF res.k = "nil" /\ tr = "inproc"
         THEN V(Cardinality(cSendOk) + 1 <= hRecvStarted + K, "C20", "request-sender-ran-ahead")
